@@ -241,3 +241,21 @@ def run(ctx):
         "rational bounds are judged after scaling by the lcm of their denominators",
         "epsilon = 0 (the class default); float bounds are not explored",
     ]
+
+
+def replay(ctx, rec):
+    d = rec["data"]
+    if "trace" not in d:
+        print("replay: this finding has no recorded history (design-level or non-termination): re-run the check")
+        return 0
+    t = d["trace"]
+    ops = [{k: v for k, v in o.items() if k != "obs"} for o in t["ops"]]
+    rops = guarded_replay(ctx, ops, d["nev"], t.get("scale", 1))
+    if rops is None:
+        return 1
+    judge(ctx, "replay", [{"id": 1, "ops": rops, "scale": t.get("scale", 1)}], d["nev"], d["nnet"])
+    for v in ctx.violations:
+        print("REPRODUCED property=C25 clause=%s" % v.sig)
+    if not ctx.violations:
+        print("replay: no violation on the current tree")
+    return 1 if ctx.violations else 0
